@@ -33,7 +33,7 @@ var c15DecoyPool = []string{
 	"regex-assembly/932100.ra.bak", "regex-assembly/932100.ra~", "regex-assembly/notes.md", "regex-assembly/x.ra/", "regex-assembly/x.ra/inside.txt", "regex-assembly/include/readme.txt", "regex-assembly/.hidden.ra.swp", "regex-assembly/data.raw",
 	"rules/REQUEST-932-APPLICATION-ATTACK-RCE.bak", "rules/#REQUEST-932-APPLICATION-ATTACK-RCE.conf#", "rules/REQUEST-932-APPLICATION-ATTACK-RCE.conf.orig", "rules/REQUEST-932-APPLICATION-ATTACK-RCE.conf~", "rules/unix-shell.data", "rules/README.example.md", "rules/backup.conf.d/",
 	"tests/regression/tests/REQUEST-932/9321000.yaml", "tests/regression/tests/REQUEST-932/932100.yaml.bak", "tests/regression/tests/REQUEST-932/932100.yaml~", "tests/regression/tests/REQUEST-932/notes.txt", "tests/regression/tests/REQUEST-932/93210.yaml", "tests/regression/tests/REQUEST-932/932100.json", "tests/regression/README.md",
-	"tests/regression/tests/REQUEST-932/932101",
+	"tests/regression/tests/REQUEST-932/932101", "tests/regression/tests/REQUEST-932/932120.json", "tests/regression/tests/REQUEST-932/932130.yaml.disabled", "tests/regression/tests/REQUEST-932/932140.txt",
 	"crs-setup.conf.example.bak", "docs/example.md", "util/tool.confx", "INSTALL", ".github/workflows/x.yaml",
 }
 
@@ -52,7 +52,7 @@ func genC15(t *rapid.T) C15Case {
 		case "format", "format-check":
 			c.Target = rapid.SampledFrom([]string{"932100", "932100.ra", "932110-chain1", "shared"}).Draw(t, "target")
 		case "renumber", "renumber-check":
-			c.Target = rapid.SampledFrom([]string{"932100", "932100.yaml", "932110"}).Draw(t, "target")
+			c.Target = rapid.SampledFrom([]string{"932100", "932100.yaml", "932110", "932120", "932120.json", "932130", "932140"}).Draw(t, "target")
 		default:
 			c.Target = rapid.SampledFrom([]string{"932100", "932110-chain1"}).Draw(t, "target")
 		}
